@@ -271,15 +271,22 @@ def r10_4_chunk_validator(chk):
                         f"integral>=record-length-is-accepted:{o.where[1][:40]}",
                         "an integral chunk size >= the record length is rejected", o.where[0],
                         witness=W(o.st, [ge(x, vrl)]))
-    # write_logical_records: None/0 -> default, validated value is what sizes the buffer
-    src = norm(wl.node)
-    calls = [n for n in walk_local(wl.node) if isinstance(n, ast.Call)]
-    sc = Scope(ix, wl)
-    bo = ix.get_class("BufferedOutput")
-    ctor = [n for n in calls if ix.infer(n.func, sc) == ("cls", bo)]
-    vcalls = [n for n in calls if val in ix.resolve_call(n, sc)[0]]
-    ok = len(ctor) == 1 and len(vcalls) == 1 and ctor[0].args and "output_chunk_size" in norm(ctor[0].args[0]) \
-        and norm(vcalls[0].args[0]) == "output_chunk_size" and vcalls[0].lineno < ctor[0].lineno
+    # write_logical_records: None/0 -> default, validated value is what sizes the buffer  (inlined value-flow summary:
+    # the buffer may be made in a helper)
+    from ..terms import is_call, call_arg, pp, contains
+    ws = chk.terms.inline(wl, 2, stop=lambda g: g is val or g.name == "__init__")
+    ctor = [c for c in ws.all_calls("BufferedOutput")]
+    vcalls = [(i, e) for i, e in enumerate(ws.effects) if e.kind == "call" and is_call(e.value, val.name)]
+    ocs = ("param", "output_chunk_size")
+    ctor_eff = [(i, e) for i, e in enumerate(ws.effects) if any(isinstance(t, tuple) and ctor and contains(t, ctor[0])
+                                                              for t in (e.base, e.key, e.value))]
+    ok = len(ctor) == 1 and len(vcalls) == 1 and bool(ctor_eff) and vcalls[0][0] < ctor_eff[0][0] and \
+        set(vcalls[0][1].pc) <= set(ctor_eff[0][1].pc) and not vcalls[0][1].ctx
+    if ok:
+        sized = call_arg(ctor[0], 0)
+        checked = call_arg(vcalls[0][1].value, 0)
+        # the size handed to the buffer is int(<the validated value>) or the validated value itself
+        ok = checked is not None and contains(checked, ocs) and sized in (checked, ("call", ("global", "int"), (checked,), ()))
     chk.require(ok, "R10.4", "validated-size-sizes-the-buffer",
                 "the buffer is not created from the validated output chunk size", wl.where)
     for q in it.consulted:
